@@ -9,11 +9,23 @@
 #include <stdio.h>
 #include <stdlib.h>
 #include <string.h>
+#include <errno.h>
+#include <unistd.h>
 
 static int drv_system(const char *cmd);
+static int drv_access(const char *path, int mode);
 #define system drv_system
+#define access drv_access
 #include "tun.c"
 #undef system
+#undef access
+
+/* TUNSET_NO_IFCONFIG=1: this host has no ifconfig (only iproute2), should tun.c care */
+static int drv_access(const char *path, int mode)
+{
+	if (getenv("TUNSET_NO_IFCONFIG") && strstr(path, "ifconfig")) { errno = ENOENT; return -1; }
+	return (access)(path, mode);
+}
 
 /* open_tun() is never called here; its helper lives in common.c */
 void fd_set_close_on_exec(int fd) { (void)fd; }
